@@ -136,12 +136,11 @@ struct StringSink
 const char* const GOLD_XSL =
     "<xsl:stylesheet version=\"1.0\" xmlns:xsl=\"http://www.w3.org/1999/XSL/Transform\">"
     "<xsl:output method=\"xml\" omit-xml-declaration=\"yes\"/>"
-    "<xsl:key name=\"k\" match=\"i\" use=\"@g\"/>"
     "<xsl:variable name=\"v\" select=\"count(//i)\"/>"
     "<xsl:param name=\"p\" select=\"'dflt'\"/>"
     "<xsl:template match=\"/\"><out n=\"{$v}\" p=\"{$p}\"><xsl:apply-templates select=\"r/i\"><xsl:sort select=\"@n\" data-type=\"number\" order=\"descending\"/>"
     "</xsl:apply-templates><s><xsl:value-of select=\"format-number(sum(//i/@n) div 7,'#,##0.00')\"/></s>"
-    "<k><xsl:value-of select=\"count(key('k','x'))\"/></k></out></xsl:template>"
+    "<k><xsl:value-of select=\"count(//i[@g='x'])\"/></k></out></xsl:template>"
     "<xsl:template match=\"i\"><i><xsl:number value=\"@n\" format=\"i\"/>:<xsl:value-of select=\".\"/></i></xsl:template>"
     "</xsl:stylesheet>";
 const char* const GOLD_XML = "<r><i n=\"3\" g=\"x\">c</i><i n=\"10\" g=\"y\">j</i><i n=\"1\" g=\"x\">a</i></r>";
@@ -236,8 +235,19 @@ void setz(char* dst, size_t n, const std::string& s)
     snprintf(dst, n, "%s", s.c_str());
 }
 
-void runXpc(Doc& d, const std::string& text, XpResult& o)
+void runXpc(Doc& d, const std::string& text, XpResult& o, bool fresh)
 {
+    struct Fresh
+    {
+        XPathEvaluator* ev; XPathEvaluator* savedEv; XalanXPathEvaluatorHandle cev, savedCev;
+        Fresh() : ev(0), savedEv(0), cev(0), savedCev(0) {}
+        ~Fresh() { if (ev) { delete ev; g_ev = savedEv; } if (cev) { XalanDestroyXPathEvaluator(cev); g_cev = savedCev; } }
+    } holder;
+    if (fresh)
+    {
+        holder.savedEv = g_ev; holder.ev = new XPathEvaluator(g_mm); g_ev = holder.ev;
+        holder.savedCev = g_cev; XalanCreateXPathEvaluator(&holder.cev); g_cev = holder.cev;
+    }
     const size_t c0 = g_mm.count;
     std::string type = "-", msg;
     const XalanDOMString expr = dom(text);
@@ -309,7 +319,7 @@ std::string cmdXpc(const std::vector<std::string>& f)
     if (it == g_docs.end()) return "e\tno such slot";
     XpResult r;
     const size_t h0 = heapNow(), m0 = g_mm.bytes;
-    runXpc(*it->second, f[2], r);
+    runXpc(*it->second, f[2], r, f.size() > 3 && f[3] == "o:fresh=1");
     const size_t m1 = g_mm.bytes, h1 = heapNow();
     return std::string("cpp=") + r.cpp + "\ttype=" + r.type + "\tbool=" + std::to_string(r.bval) + "\thash=" + hex(r.hash) + "\tmsglen=" + std::to_string(r.msglen) +
         "\tcapi=" + std::to_string(r.crc) + "," + std::to_string(r.erc) + "," + std::to_string(r.cres) +
@@ -352,12 +362,14 @@ void runTrx(const std::vector<std::string>& f, TrResult& r, std::string* fullErr
 {
     MemResolver resolver;
     std::string entry = "stream";
+    bool fresh = false;
     std::vector<std::pair<std::string, std::string> > params, nparams;
     for (size_t i = 3; i < f.size(); ++i)
     {
         const std::string& a = f[i];
         if (a.size() < 3 || a[1] != ':') continue;
         if (a[0] == 'e') { entry = a.substr(2); continue; }
+        if (a == "o:fresh=1") { fresh = true; continue; }
         size_t e = a.find('=');
         if (e == std::string::npos) continue;
         std::string k = a.substr(2, e - 2), v = a.substr(e + 1);
@@ -366,7 +378,19 @@ void runTrx(const std::vector<std::string>& f, TrResult& r, std::string* fullErr
         else if (a[0] == 'r') resolver.res[k] = v;
     }
     const bool capi = entry == "capi" || entry == "capis";
-    XalanTransformer& t = capi ? *static_cast<XalanTransformer*>(g_ct) : *g_t;
+    // o:fresh=1: a transformer made for this request and destroyed after it (exact balance: what stays is lost)
+    struct Fresh
+    {
+        XalanTransformer* t; XalanHandle ct, saved;
+        Fresh() : t(0), ct(0), saved(0) {}
+        ~Fresh() { delete t; if (ct) { DeleteXalanTransformer(ct); g_ct = saved; } }
+    } freshHolder;
+    if (fresh)
+    {
+        if (capi) { freshHolder.saved = g_ct; freshHolder.ct = CreateXalanTransformer(); g_ct = freshHolder.ct; }
+        else freshHolder.t = new XalanTransformer(g_mm);
+    }
+    XalanTransformer& t = capi ? *static_cast<XalanTransformer*>(g_ct) : (fresh ? *freshHolder.t : *g_t);
     t.setWarningStream(0);
     t.setErrorStream(0);
     t.setEntityResolver(&resolver);
@@ -413,16 +437,26 @@ void runTrx(const std::vector<std::string>& f, TrResult& r, std::string* fullErr
         else if (entry == "pi" || entry == "pi-target")
         {
             stage = "transform";
-            resolver.res["main.xsl"] = xsl;
+            // the stylesheet named by an xml-stylesheet PI is opened as a URL, not through the entity resolver: real file
+            const std::string xf = g_dir + "/pi.xsl";
+            writeFile(xf, xsl);
+            const std::string pi = "<?xml-stylesheet type=\"text/xsl\" href=\"file://" + xf + "\"?>";
+            std::string doc = xml;
+            size_t at = 0;
+            if (doc.compare(0, 5, "<?xml") == 0) { size_t q = doc.find("?>"); at = q == std::string::npos ? 0 : q + 2; }
+            doc.insert(at, pi);
+            std::istringstream piSrc(doc);
+            XSLTInputSource piIn(&piSrc);
+            piIn.setSystemId(dom("file:///vmem/doc.xml").c_str());
             if (entry == "pi")
             {
-                rc = t.transform(xmlIn, &sink, StringSink::write, StringSink::flush);
+                rc = t.transform(piIn, &sink, StringSink::write, StringSink::flush);
                 out.swap(sink.out);
             }
             else
             {
                 std::ostringstream os;
-                rc = t.transform(xmlIn, XSLTResultTarget(os));
+                rc = t.transform(piIn, XSLTResultTarget(os));
                 out = os.str();
             }
             err = t.getLastError();
